@@ -56,7 +56,7 @@ theorem SFrame.emit (P : Prog) (c : Cfg) (e : Ev) (he : e.isCb = false) : SFrame
   ⟨by simp, by simp, by simp, by simp, by simp, by simp, by simp, by simp, by simp [he], by simp,
    emit_tr_suffix P c e, (List.suffix_cons _ _).trans (emit_log_suffix P c e)⟩
 
-theorem SFrame.startRequest (c : Cfg) (ih : Nat) (r : Src) (t : Str) : SFrame (outCfg (startRequest c ih r t)) c := by
+theorem SFrame.startRequest (c : Cfg) (ih : Nat) (r : Src) (t : Str) : SFrame (sOutCfg (startRequest c ih r t)) c := by
   obtain ⟨h1, h2, h3, h4, h5, h6, h7, h8, h9, _, h11, h12⟩ := startRequest_frame c ih r t
   exact ⟨h1, h2, h3, h5, h6, h7, h8, h9, by rw [h4], h11, h12, by rw [h4]; exact List.suffix_refl _⟩
 
@@ -188,18 +188,18 @@ theorem go_external (scr : Nat) (evs : List OutEv) (cur : List Str) (acc : List 
 
 theorem step_loopish (P : Prog) (c : Cfg) (ins : Instr) (rest : List Instr) (hc : c.code = ins :: rest)
     (hl : ins.loopish = true) :
-    SFrame (outCfg (step P c)) c ∧
-      ∃ pushed, CodeStep (outCfg (step P c)) rest pushed ∧ ∀ i ∈ pushed, i.external = true := by
+    SFrame (sOutCfg (step P c)) c ∧
+      ∃ pushed, CodeStep (sOutCfg (step P c)) rest pushed ∧ ∀ i ∈ pushed, i.external = true := by
   cases ins <;> (first | (exfalso; revert hl; simp [Instr.loopish]; done) | skip) <;> simp only [step, hc]
   case act a =>
-    cases a <;> (first | (exfalso; revert hl; simp [Instr.loopish, Act.isStackOp]; done) | skip) <;> simp only [doAct, outCfg_ok, outCfg_raise]
+    cases a <;> (first | (exfalso; revert hl; simp [Instr.loopish, Act.isStackOp]; done) | skip) <;> simp only [doAct, sOutCfg_ok, sOutCfg_raise]
     all_goals try leaf
-    case proc cls => cases cls <;> simp only [outCfg_ok] <;> leaf
-  all_goals try (simp only [outCfg_ok, outCfg_raise]; leaf)
-  all_goals try (split <;> simp only [outCfg_ok, outCfg_raise] <;> leaf)
-  all_goals try (split <;> (try split) <;> (try split) <;> (try split) <;> simp only [outCfg_ok, outCfg_error, outCfg_raise] <;> leaf)
+    case proc cls => cases cls <;> simp only [sOutCfg_ok] <;> leaf
+  all_goals try (simp only [sOutCfg_ok, sOutCfg_raise]; leaf)
+  all_goals try (split <;> simp only [sOutCfg_ok, sOutCfg_raise] <;> leaf)
+  all_goals try (split <;> (try split) <;> (try split) <;> (try split) <;> simp only [sOutCfg_ok, sOutCfg_error, sOutCfg_raise] <;> leaf)
   case closeScreen3 e =>
-    split <;> split <;> simp only [outCfg_ok, outCfg_raise]
+    split <;> split <;> simp only [sOutCfg_ok, sOutCfg_raise]
     · exact loopish_raised _ ((SFrame.redraw _).trans (by sframe)) (by simp)
     · leaf
     · leaf
@@ -207,11 +207,11 @@ theorem step_loopish (P : Prog) (c : Cfg) (ins : Instr) (rest : List Instr) (hc 
   case newLoop s =>
     split
     · leaf
-    · simp only [outCfg_ok]
+    · simp only [sOutCfg_ok]
       refine loopish_mk [.mainCheck c.L.queues.length] (((SFrame.enqueue _ _).trans ?_).push _) (by simp) (by simp [Instr.external])
       sframe
   case callH h d s =>
-    cases h <;> simp only [outCfg_ok] <;> try leaf
+    cases h <;> simp only [sOutCfg_ok] <;> try leaf
     case user hid =>
       refine loopish_mk (List.map Instr.act (P.handlerScript hid _) ++ [.hret hid])
         (((SFrame.emit _ _ _ rfl).trans ?_).push _) (by simp; rfl) ?_
@@ -221,27 +221,27 @@ theorem step_loopish (P : Prog) (c : Cfg) (ins : Instr) (rest : List Instr) (hc 
   case getDispatch =>
     simp only [bind, Except.bind, pure, Except.pure]
     obtain ⟨c1, h, hf, hcode⟩ | ⟨s, c2, h, hf, hcode⟩ := take_frame ({ c with code := rest } : Cfg)
-    · rw [h]; simp only [outCfg_error]
+    · rw [h]; simp only [sOutCfg_error]
       exact loopish_suf (hf.trans (by sframe)) (by simp [hcode])
-    · rw [h]; simp only [outCfg_ok]
+    · rw [h]; simp only [sOutCfg_ok]
       exact loopish_mk [.processSignal s] ((hf.trans (by sframe)).push _) (by simp [hcode]) (by simp [Instr.external])
   case printWidget scr =>
     split
     · leaf
     · split
       · leaf
-      · simp only [outCfg_ok]
+      · simp only [sOutCfg_ok]
         exact loopish_mk _ (by sframe) rfl (go_external _ _ _ _ (by simp))
   case waitStep cls t =>
     split
     · simp only [bind, Except.bind, pure, Except.pure]
       obtain ⟨c1, h, hf, hcode⟩ | ⟨s, c2, h, hf, hcode⟩ := take_frame ({ c with code := rest } : Cfg)
-      · rw [h]; simp only [outCfg_error]
+      · rw [h]; simp only [sOutCfg_error]
         exact loopish_suf (hf.trans (by sframe)) (by simp [hcode])
-      · rw [h]; simp only [outCfg_ok]
+      · rw [h]; simp only [sOutCfg_ok]
         exact loopish_mk [.processSignal s, .waitCheck cls t] ((hf.trans (by sframe)).push _) (by simp [hcode])
           (by simp [Instr.external])
-    · simp only [outCfg_ok]; leaf
+    · simp only [sOutCfg_ok]; leaf
   case blockingInput scr cont =>
     generalize (if cont = true then promptText P contPrompt else _) = text
     have hf := SFrame.startRequest (push (newIH ({ c with code := rest } : Cfg) (.im scr) (P.spec scr).skipCheck none).2
@@ -257,8 +257,8 @@ theorem step_loopish (P : Prog) (c : Cfg) (ins : Instr) (rest : List Instr) (hc 
     · exact ⟨[], CodeStep.of_suffix h, by simp⟩
   case inputReceived s =>
     split
-    · simp only [outCfg_raise]; leaf
-    · simp only [outCfg_ok]
+    · simp only [sOutCfg_raise]; leaf
+    · simp only [sOutCfg_ok]
       rename_i r _
       have h := foldl_frame (fun c t =>
           (c.newSig Cls.inputReady 0 (c.A.reqs.getD t default).requester [] (c.A.reqs.getD t default).ih false).snd.enqueue
